@@ -94,7 +94,10 @@ def _plain_increment(n):
 class SeqAlg:
     def __init__(self, eng, f):
         self.eng, self.f = eng, f
-        self.se = SymEval(eng.ce, f, inline=None)
+        # module-level private functions (pure accessors such as `def _tables(identity): return TABLE[...]`) are inlined by the term evaluator;
+        # private *methods* are executed by this interpreter itself (call_helper), because they may build sequences
+        self.se = SymEval(eng.ce, f, inline=lambda call, callee, caller: (eng.inline_policy(call, callee, caller) if callee[0] == "func" else None))
+        self._helper_depth = 0
         self.objs: list[SeqObj] = []
         self.nvar = 0
         self.registry: list[Comp] = []  # prototypes of the filtered spaces whose size is referred to as ("cnt", k)
@@ -217,7 +220,59 @@ class SeqAlg:
         return self.objs[t[1]] if isinstance(t, tuple) and t and t[0] == "seqv" else None
 
     # ------------------------------------------------------------------ expressions
+    def _helper_of(self, node):
+        """FuncInfo of a private method of the same class called as self._name(...), else None."""
+        if isinstance(node, ast.Call) and isinstance(node.func, ast.Attribute) and isinstance(node.func.value, ast.Name) and node.func.value.id == self.se.selfname and self.f.cls:
+            fi = self.eng.repo.funcs.get(f"{self.f.module}.{self.f.cls}.{node.func.attr}")
+            if fi is not None and fi.name.startswith("_") and not fi.name.startswith("__") and not fi.is_property and fi.qualname != self.f.qualname:
+                return fi
+        return None
+
+    def call_helper(self, fi, node, env):
+        """Execute a private method of the class on the abstract state: parameters bound to the arguments, the instance fields shared with the caller."""
+        if self.loop_stack or self._helper_depth >= 3:
+            raise Unsupported(f"call of {fi.name} inside a loop / too deep")
+        a = fi.node.args
+        if a.vararg or a.kwarg or a.kwonlyargs or a.posonlyargs or any(isinstance(x, ast.Starred) for x in node.args):
+            raise Unsupported(f"signature of {fi.name}")
+        params = fi.params[1:]
+        vals = [self.expr(x, env) for x in node.args]
+        cenv = {fi.params[0]: ("self",)}
+        for p_, v in zip(params, vals):
+            cenv[p_] = v
+        for k in node.keywords:
+            if k.arg is None or k.arg not in params:
+                raise Unsupported(f"keyword argument of {fi.name}")
+            cenv[k.arg] = self.expr(k.value, env)
+        defaults = [None] * (len(params) - len(a.defaults)) + list(a.defaults)
+        for p_, d in zip(params, defaults):
+            if p_ not in cenv:
+                if d is None:
+                    raise Unsupported(f"missing argument of {fi.name}")
+                cenv[p_] = self.expr(d, {})
+        for k, v in env.items():
+            if k.startswith("self."):
+                cenv[k] = v
+        body = [st for st in fi.node.body if not (isinstance(st, ast.Expr) and isinstance(st.value, ast.Constant))]
+        rets = [n for st in body for n in ast.walk(st) if isinstance(n, ast.Return)]
+        if len(rets) > 1 or (rets and rets[0] is not body[-1]):
+            raise Unsupported(f"{fi.name} returns from more than one place")
+        self._helper_depth += 1
+        saved_f, saved_se = self.f, self.se
+        try:
+            self.block(body, cenv, ())
+        finally:
+            self._helper_depth -= 1
+            self.f, self.se = saved_f, saved_se
+        for k, v in cenv.items():
+            if k.startswith("self."):
+                env[k] = v
+        return cenv.get("__return__", ("const", None))
+
     def expr(self, node, env):
+        fi_ = self._helper_of(node)
+        if fi_ is not None:
+            return self.call_helper(fi_, node, env)
         if isinstance(node, ast.ListComp):
             c = self.comprehension(node, env)
             ref = self.new_obj("list", node)
@@ -679,6 +734,9 @@ class SeqAlg:
                     raise Unsupported(f"append to `{key}` outside the loop that builds it")
                 acc["site"], acc["elt"] = self._space(conds), self.expr(v.args[0], env)
                 env[key] = ("accl", key, 1)
+                return
+            if self._helper_of(v) is not None:
+                self.call_helper(self._helper_of(v), v, env)
                 return
             raise Unsupported(f"expression statement {ast.unparse(v)[:50]}")
         if isinstance(s, ast.Assign) and _plain_increment(s) is not None and self._key(s.targets[0]) and (self._acc(self._key(s.targets[0])) or {}).get("kind") == "counter":
